@@ -130,6 +130,11 @@ func (c connectUnaryGetClientProtocol) prepareUnmarshalledRequest(op *operation,
 	} else {
 		msgData = ([]byte)(msgStr)
 	}
+	// The message travels in the URL instead of the body, but it is a request
+	// message like any other: the buffer limit applies to it.
+	if limit := int64(op.methodConf.maxMsgBufferBytes); int64(len(msgData)) > limit {
+		return bufferLimitError(limit)
+	}
 	if op.client.reqCompression != nil && len(msgData) > 0 {
 		dst := op.bufferPool.Get()
 		defer op.bufferPool.Put(dst)
